@@ -105,7 +105,8 @@ def c02_cases(tier, rng):
 
 
 def c03_cases(tier, rng):
-    combos = grid(p1=K.P1S, p2=K.P2S, p4=["sink", "valign", "pack", "nspos", "bk"], p5=["straight"],
+    # the arrow flag is written by the routing phase: every router, and no routing at all
+    combos = grid(p1=K.P1S, p2=K.P2S, p4=["sink", "valign", "pack", "nspos", "bk"], p5=["straight", "noop", "poly", "ortho"],
                   size=["all", "none", "fixed"], pat=["het", "het2"], ls=[1, 10])
     inputs = [(n, e) for n, e, _ in K.family(fam_E(tier))]
     for (n, e), cb in rotate(inputs, combos, 4 if tier == "quick" else 6, rng):
@@ -176,6 +177,29 @@ def c06_cases(tier, rng):
     yield from spline_cases(tier, rng, 300 if tier == "quick" else 2000)
     for (n, e), cb in rotate(shaped_inputs(tier), combos, 4, rng):
         yield apply(n, e, cb)
+    yield from bend_vs_neighbour_component(tier, rng, 800 if tier == "quick" else 8000)
+
+
+def bend_vs_neighbour_component(tier, rng, count):
+    """a component with long edges (bends may stick out to the right of every real node) followed by a component made of two
+    very large nodes: a bend of the first must not end up inside a node of the second (the component shift has to count
+    helper nodes whether or not they are in the output)"""
+    small = [(20, 40), (10, 20), (20, 90), (30, 10), (30, 30), (10, 10)]
+    big = [(190, 480), (80, 370)]
+    out = 0
+    while out < count:
+        n1, e1 = K.random_multigraph(rng, 4, 7, density=rng.choice([1.3, 1.6, 2.0]), connected=True, loop_rate=0)
+        n, e = K.canon(list(map(tuple, e1)) + [(n1 + 1, n1 + 2)])
+        if n != n1 + 2:
+            continue
+        c = case(n, e, p1=rng.choice(K.P1S), p2=rng.choice(K.P2S), p4=rng.choice(K.P4_SIZE_AWARE), p5="poly",
+                 ns=rng.choice([2, 10]), ls=rng.choice([4, 10]), virt=rng.choice([0, 0, 1]))
+        c["smap"] = [[1, small[i % len(small)][0], small[i % len(small)][1]] for i in range(n1)] + [[1, w, h] for w, h in big]
+        if c["p4"] == "nspos" and n + len(e) > NSPOS_MAX:
+            c["p4"] = "sink"
+        c["budgetms"] = budget_ms(n, len(e), c["p4"])
+        out += 1
+        yield c
 
 
 def c14_cases(tier, rng):
@@ -419,6 +443,8 @@ def run_unary(prop, tier, seed, replay):
                 models.append(engine.nspos_model(work, tier))
             if prop == "C04":
                 models.append(engine.netsimplex_h_model(work, tier))
+            if prop == "C05":
+                models.append(engine.spline_corridor_model(work, tier))
             if prop == "C13":
                 models.append(engine.wmedian_model(work, tier, "trees"))
             if prop == "C12":
